@@ -17,5 +17,5 @@ if [ $TESTS = 1 ]; then
 fi
 cd /verif
 VERIF_REPO="$D" VERIF_JOBS=$JOBS timeout 3600 ./check "$PID" --tier quick > "$D/check.log" 2>&1; echo "check_rc=$?"
-grep -E "^VIOLATION|^KNOWN|^HARNESS|^NON-REPRO| quick:" "$D/check.log" | head -8
+grep -E "^VIOLATION" "$D/check.log" | head -4; grep -E "^HARNESS|^NON-REPRO| quick:" "$D/check.log" | head -4; grep -c "^KNOWN" "$D/check.log" | sed "s/^/known_lines=/"
 rm -rf "$D"
